@@ -12,6 +12,18 @@ ALLG = ['default', 'th1', 'th2', 'th8', 'k16']
 def seq(flavor, histories, length, extra=()):
     return {'args': ['seq', '--seed', '{seed}', '--flavor', flavor, '--histories', str(histories), '--len', str(length)] + list(extra)}
 
+def conc(scenarios, dfs, randoms, freezes, crash_every=0, kind=None, bound=2):
+    a = ['conc', '--seed', '{seed}', '--scenarios', str(scenarios), '--dfs', str(dfs), '--random', str(randoms),
+         '--freeze', str(freezes), '--bound', str(bound), '--crash-every', str(crash_every)]
+    if kind is not None: a += ['--kind', str(kind)]
+    return {'args': a}
+
+T_RULE = ('concurrent scenarios (2-3 real threads, 1-3 calls each, 1-3 trees: multi-row allocations racing in one huge '
+          'frame, frees of parts of one whole huge frame, lower-level calls, nearly full allocators with drains and targeted '
+          'gets, random mixes incl. tree changes) run under a deterministic scheduler that decides before every atomic '
+          'access which thread proceeds: preemption-bounded DFS over schedules, seeded random schedules, and freeze '
+          'experiments; the per-access event trace and every call result are replayed on the Lean interleaving semantics. ')
+
 def unit(what, n):
     return {'args': ['unit', what, '--seed', '{seed}', '--n', str(n)]}
 
@@ -75,5 +87,18 @@ PROPS = {
                           'leave the digest of all three buffers unchanged. unit meta: LLFree::new over buffers carved from one '
                           'arena: exact size, one byte short, offset by 1..63, overlapping pairs.'),
         'assumptions': ['class ids are 0..7 (a larger id indexes the 8-entry class table out of bounds in the source)'],
+    },
+    'C20': {
+        'oracles': ['C20'], 'replay_bin': True,
+        'geoms': {'quick': ['default'], 'thorough': ['default']},
+        'runs': {'quick': [unit('replay', 150)], 'thorough': [unit('replay', 5000)]},
+        'rule': ('synthetic trace files (header page + per-cpu trace pages, the binary format of replay.rs) with allocations '
+                 'of orders 0..10, whole/first/middle/last-part frees, and (in ill-formed traces) frees of unknown pfns, '
+                 're-allocations and extra cpus, over 1-4 cores; the built `replay` binary is run on each file and its '
+                 'free_frames / number of failed frees compared with the Lean replay loop over the allocator model; for '
+                 'well-formed traces the oracle requires 0 failed frees and free = managed - frames the trace still holds. '
+                 'distinct_nontrivial = distinct (well-formed, failed, size bucket) signatures.'),
+        'assumptions': ['trace parsing (mmap, bit-field unpacking, sort by f32 time) is exercised through the binary but not modelled',
+                        'the replay binary is built from /repo by cargo into harness/target-replay'],
     },
 }
